@@ -236,9 +236,5 @@ Definition visible_o (own : Z) (o : outcome callback) : outcome callback :=
    chars k n      n printable ASCII bytes 33..126
    pathchars k n  n bytes a..z with a '/' at every position = 199 mod 200 (a relative path of
                   directories of 199 letters); the generator keeps n mod 200 <> 0 *)
-Fixpoint gen_bytes (f : Z -> Z) (i : Z) (n : nat) : bytes :=
-  match n with O => [] | S k => f i :: gen_bytes f (i + 1) k end.
-Definition chars (k n : Z) : bytes :=
-  gen_bytes (fun i => 33 + (k * 31 + i * 7) mod 94) 0 (Z.to_nat n).
 Definition pathchars (k n : Z) : bytes :=
   gen_bytes (fun i => if i mod 200 =? 199 then 47 else 97 + (k * 31 + i * 7) mod 26) 0 (Z.to_nat n).
